@@ -41,6 +41,7 @@ def plan(tier, seed):
     pairs = [("val_%d" % r["id"], r["reaction"]) for r in rows]
     pairs += G.deletions(rng, 30 if q else 300) + G.redox_family(rng, 20 if q else 200)
     pairs += [("nomatch_%d" % i, s) for i, s in enumerate(NOMATCH * (2 if q else 10))]
+    pairs += G.dot_closure_mcs(rng, 16 if q else 160) + G.dative(rng, 12 if q else 100)
     rng.shuffle(pairs)
     cases = []
     i = 0
@@ -49,12 +50,14 @@ def plan(tier, seed):
         n = rng.choice([1, 2, 3, 5, 8, 13, 21, 30])
         chunk = pairs[i:i + n]
         i += n
+        # a share of the larger batches runs with a process pool: the monitored functions (find, ensemble_mcs)
+        # still run in this process, the search jobs in the pool's workers
         cases.append({"tag": "mix_%d" % k, "inputs": [rx for _, rx in chunk],
-                      "cfg": {"batch_size": None, "threshold": 0, "n_jobs": 1}})
+                      "cfg": {"batch_size": None, "threshold": 0, "n_jobs": 4 if (n >= 5 and k % 3 == 0) else 1}})
         k += 1
     shards = rowlib.spread(cases, 15 if q else 44)
     # inner searches of one reaction forced to 'canceled' (what RDKit's 1 s budget does under load)
-    fc = [c for c in cases if 2 <= len(c["inputs"]) <= 8][: (3 if q else 16)]
+    fc = [dict(c, cfg=dict(c["cfg"], n_jobs=1)) for c in cases if 2 <= len(c["inputs"]) <= 8][: (3 if q else 16)]
     shards += [{"cancel_cases": [c]} for c in fc]
     if q:
         shards.append({"tables": {"rows": 1, "part": 0, "parts": 1}})
@@ -163,7 +166,10 @@ def pipeline_case(case, res, count=True):
         captured["cond"] = out
         return out
 
-    b, _ = rowlib.balancer(0, 1, trace=False)
+    nj = (case.get("cfg") or {}).get("n_jobs", 1)
+    b, _ = rowlib.balancer(0, nj, trace=False)
+    if nj > 1:
+        res.count("find_monitored_with_process_pool")
     orig_find = b.mcs_search.find
     seen = {}
 
@@ -278,5 +284,6 @@ def conclude_args(res, tier, seed):
         ex += "; 3 x 2 rows (%d tables) enumerated completely: %s" % (
             n2, res.counters.get("tables_exhaustive_rows2", 0) == n2)
     return {"need": {"find_results_checked": 100, "containment_evaluated": 100, "maximality_evaluated": 100,
-                     "tables_evaluated": 300, "tables_exhaustive_rows1": n1, "forced_cancel_runs": 5}, "min_cases": 100,
+                     "tables_evaluated": 300, "tables_exhaustive_rows1": n1, "forced_cancel_runs": 5,
+                     "find_monitored_with_process_pool": 3}, "min_cases": 100,
             "extra": {"exhaustive_subspace": ex}}
